@@ -52,8 +52,60 @@ pub fn run(tier: Tier, seed: u64) -> i32 {
     rep.assumptions = vec!["native mini-SVM with the runtime's signer-privilege rules; a variant that would need a signature the transaction does not carry cannot be built by a client at all (counted as rejected)".into(), "keys are sampled: an authority comparison that ignores some byte is only probed at byte 0 and byte 31".into()];
     let flavours = tier.pick(1, 4);
     let mut acc = Acc::default();
+    // ---- the authority recorded when an object is created is the designated one, not whoever paid for the account ----
+    // (funder, signing authority and stored authorities are all different keys here)
+    {
+        use crate::ix::build as b;
+        use crate::world::{World, ADMIN};
+        use solana_program::system_program;
+        let mut w = World::new(crate::rnd::rng(seed ^ 0xc4ea7e));
+        let (fa, cpfa, resa) = (w.new_key(), w.new_key(), w.new_key());
+        let cfgk = w.new_key();
+        for k in [fa, cpfa, resa] {
+            w.bank.airdrop(k, 1_000_000_000_000);
+        }
+        let o = w.exec(b::InitializeConfig { config: cfgk, funder: ADMIN, system_program: system_program::ID }.ix(fa, cpfa, resa, 300));
+        acc.evaluations += 1;
+        let fail = |acc: &mut Acc, what: &str, detail: String| acc.violation(format!("c04:authority_recorded_at_creation:{what}"), detail, json!({"object": what}));
+        match w.bank.data(&cfgk).and_then(codec::Config::decode) {
+            Some(c) if o.ok() => {
+                acc.count("creation_authority_checks");
+                if (c.fee_authority, c.collect_protocol_fees_authority, c.reward_emissions_super_authority) != (fa, cpfa, resa) {
+                    fail(&mut acc, "initialize_config", format!("config records authorities ({}, {}, {}) but was created with ({fa}, {cpfa}, {resa}); the funder is {ADMIN}", c.fee_authority, c.collect_protocol_fees_authority, c.reward_emissions_super_authority));
+                }
+            }
+            _ => {
+                acc.notes.push("HARNESS-ERROR creation scenario: initialize_config failed".into());
+                acc.count("harness_errors");
+            }
+        }
+        let ext = b::pda_config_extension(cfgk).0;
+        let o = w.exec(b::InitializeConfigExtension { config: cfgk, config_extension: ext, funder: ADMIN, fee_authority: fa, system_program: system_program::ID }.ix());
+        acc.evaluations += 1;
+        match w.bank.data(&ext).and_then(codec::ConfigExtension::decode) {
+            Some(e) if o.ok() => {
+                acc.count("creation_authority_checks");
+                // the config's fee authority is the one who had to sign; it (not the rent payer) holds both roles until it hands them on
+                if e.config_extension_authority != fa || e.token_badge_authority != fa {
+                    fail(&mut acc, "initialize_config_extension", format!("config extension records (config_extension_authority {}, token_badge_authority {}) but the creating authority is the config's fee authority {fa}; the funder is {ADMIN}", e.config_extension_authority, e.token_badge_authority));
+                }
+            }
+            _ => {
+                acc.notes.push("HARNESS-ERROR creation scenario: initialize_config_extension failed".into());
+                acc.count("harness_errors");
+            }
+        }
+    }
     for fl in 0..flavours {
-        let mut bs = build_base(seed.wrapping_add(fl as u64 * 7919));
+        // a set-up that no longer works on the tree under test must not hide a violation already found above
+        let mut bs = match crate::svm::quiet_catch(|| build_base(seed.wrapping_add(fl as u64 * 7919))) {
+            Ok(b) => b,
+            Err(m) => {
+                acc.notes.push(format!("HARNESS-ERROR catalogue set-up failed: {}", m.chars().take(300).collect::<String>()));
+                acc.count("harness_errors");
+                continue;
+            }
+        };
         let gs = goldens(&mut bs);
         let bank = bs.w.bank.clone();
         // ---- catalogue completeness ----
@@ -242,5 +294,6 @@ pub fn run(tier: Tier, seed: u64) -> i32 {
     rep.floor("variants_rejected", 400);
     rep.floor("legitimate_delegate_passes", 10);
     rep.floor("multisig_forgeries_built", 5);
+    rep.floor("creation_authority_checks", 2);
     rep.finish()
 }
